@@ -227,6 +227,7 @@ func c15Run(c *Ctx) {
 		Lines(Print(`100 + "%"`), Print(`"%" + 100`), Print(`2.5 + "%%"`), Print(`1 + "%d"`), Print(`"%v" + 1 + "%s"`), Print(`1000000 + "%"`), Print(`0.5 + "% off"`)),
 		Lines(Var("o", "{x: 1, y: \"hi\"}"), Var("a", "[o, o, 0]"), "a[2] = a;", Print("a"), Var("leaf", "{p: 1}"), Var("root", "{p: leaf, q: leaf}"), "root.self = root;", Print("root"), Var("sh", "[7, 8]"), Var("c", "[sh, [sh, sh], 0]"), "c[2] = c;", Print("c"), Print("[c, o]")),
 		Lines(Var("a", "[1, 0, 3]"), "a[1] = a;", Print("a"), Var("b", "[0, 2, 3, 4]"), "b[0] = b;", Print("b"), Var("root", `{name: "root", z: 5}`), `root.items = [root, "tail", 7];`, Print("root"), Var("c", "[[0, 8], 9]"), "c[0][0] = c;", Print("c"), Var("d", "[0, 0, 5]"), "d[0] = d; d[1] = d;", Print("d"), Print("[d, 6]")),
+		Lines(Var("a", "[\"\u09df\", \"e\u0301\", 0]"), "a[2] = a;", Print("a"), Var("nd", "{name: \"\u09ac\u09dc\", kids: []}"), Var("kid", "{name: \"\u0995\u09c7\u09be\", parent: nd}"), "nd.kids = [kid];", Print("nd"), Print("[nd, \"\u09dc\"]"), Print("kid")),
 		Lines(Print(`"a" + 1`), Print(`1 + "a"`), Print(`"x" + 0.5 + "y" + 1000000 + "z"`), Print(`"" + (1/3)`), Print(`(2 ** 70) + ""`)),
 	} {
 		if c.Mine() {
